@@ -343,8 +343,30 @@ fn fields_of(c: &Value, k: &Keys) -> Fields {
     }
 }
 
+/// Verification and signing are functions of the event alone: calls that FAIL (content or a tag string that is not
+/// UTF-8 - cut inside a multi-byte sequence - cannot be canonicalised) must leave nothing behind on this thread that a
+/// later call could pick up.  Run before every other case; the results are not judged (the outcome on such bytes is
+/// outside C08), the cases that follow are.
+fn failing_prelude(k: &Keys, which: usize) {
+    let contents: [&[u8]; 4] = [b"abc\xE2\x82", b"\xF0\x9F", b"tail\xC3", b"\"q\\\xE2"];
+    let content = contents[which % contents.len()];
+    let bad_tag: Vec<Vec<Vec<u8>>> = vec![vec![b"t".to_vec(), b"ab\xE2\x82".to_vec()]];
+    let tb_bad = vh::build_tags(&bad_tag);
+    let tb_ok = vh::build_tags(&[]);
+    let kp = &k.kp[which % 2];
+    for (tb, ct) in [(&tb_ok, content), (&tb_bad, &b"fine"[..])] {
+        let ev = vh::build_event(&[7u8; 32], 1, &k.pk[which % 2], &[9u8; 64], tb, 5, ct);
+        let _ = catch_unwind(AssertUnwindSafe(|| ev.verify()));
+        let tags: &Tags = unsafe { Tags::delineate(tb).expect("hand-laid tags") };
+        let _ = catch_unwind(AssertUnwindSafe(|| OwnedEvent::sign_new(kp, Kind::from_u16(1), tags, Time::from_u64(5), ct)));
+    }
+}
+
 fn run_case(c: &Value, k: &Keys) -> Value {
     let i = c["i"].as_u64().unwrap_or(0) as usize;
+    if i % 2 == 1 {
+        failing_prelude(k, i / 2);
+    }
     let full = c.get("full").and_then(|x| x.as_bool()).unwrap_or(false);
     let pki = c["pk"].as_u64().expect("pk") as usize;
     let kp = &k.kp[pki - 1];
